@@ -225,6 +225,9 @@ inductive Adapter where
   -- harness adapters that REBIND a field of `req_args` to a new object (they never touch the caller's):
   | addParam (k v : Str)                -- `req_args.params = list(pairs of req_args.params) + [(k, v)]`
   | wrapData (key : Str)                -- `req_args.data = {key: req_args.data}` for a structured body
+  -- harness adapter that itself sends a request (`target.get("/nested")`, result unused) from inside
+  -- process_req_args (`onRequest`) or process_response, every time or on first use only (`id`: the object)
+  | nested (target : Nat) (firstOnly onRequest : Bool) (id : Nat)
   deriving DecidableEq, Repr
 
 /-- `BAuthConn.Adapter(login, password)` -/
@@ -337,6 +340,7 @@ structure Sent where
   body : Option (List Nat)
   genId : Option Nat      -- the number taken from the connection's counter, if an id was generated
   resp : Except Err J     -- what `do_request` returns, or the exception of a response processor
+  nested : List Str       -- urls of the requests that adapters of the chain sent while this one was processed
   deriving DecidableEq, Repr
 
 /-- `Request.__init__`: `for key, value in headers.items(): self.headers[key.capitalize()] = value` -/
@@ -398,7 +402,8 @@ def assemble (impl : Impl) (ra : RA) (method : Option Str) (params : Option UDic
   let w := withId impl.sendIds ra.headers
   let b := mkBody data w.1
   { url := mkUrl impl.address (withQuery ra.path params), method := mkMethod method data,
-    headers := normalize b.2, body := b.1, genId := if w.2 then some impl.ctr else none, resp }
+    headers := normalize b.2, body := b.1, genId := if w.2 then some impl.ctr else none, resp,
+    nested := [] }
 
 /-! ## heap -/
 
@@ -438,9 +443,11 @@ structure Heap where
   callers : List Caller
   classes : List ClassDef
   datas : List J           -- the caller's structured `data=` objects (dicts / lists …): read by `json.dumps` only
+  fired : List Nat         -- "first use only" nesting adapters (by object id) that have sent their request
+  lastSent : Nat           -- bookkeeping for the protocol: requests handed to the opener by the last request / call
   deriving DecidableEq, Repr
 
-def Heap.empty : Heap := ⟨[], [], [], [], [], [], [], [], []⟩
+def Heap.empty : Heap := ⟨[], [], [], [], [], [], [], [], [], [], 0⟩
 
 /-- `conn_data` of a connection constructor -/
 inductive Target where
@@ -610,7 +617,7 @@ def applyAllH : List Adapter → Heap → Nat → Str → Heap × Except Err Str
 /-- a request through connection `c` (any of `get/post/…` passes the method; `do_request` itself
 accepts `None`). `RequestArguments.headers` is a new dict object (reference `H.dicts.length`) holding a
 copy of the caller's headers; adapters and the id / content-type assignments write to that object. -/
-def request (H : Heap) (c : Nat) (args : Args) : Heap × Except Err Sent :=
+def requestFlat (H : Heap) (c : Nat) (args : Args) : Heap × Except Err Sent :=
   match connView H c, optDict H args.headers, optParams H args.params, optData H args.data with
   | some (cn, impl, as), some hd, some pd, some body =>
     let w := H.dicts.length
@@ -630,6 +637,99 @@ def request (H : Heap) (c : Nat) (args : Args) : Heap × Except Err Sent :=
         | some _ => ({ H3 with impls := H3.impls.set cn.impl { impl with ctr := impl.ctr + 1 } }, .ok s)
         | none => (H3, .ok s)
   | _, _, _, _ => (H, .error .keyError)
+
+/-- the request a nesting adapter sends: `target.get("/nested")` -/
+def nestedArgs : Args :=
+  { path := "/nested".toList, method := some "GET".toList, params := none, data := .none, headers := none,
+    resp := none, raw := false }
+
+def hasNested (as : List Adapter) : Bool :=
+  as.any fun a => match a with
+    | .nested .. => true
+    | _ => false
+
+/-- one nesting adapter fires: a complete request through `target` on the same world. The model follows
+one level of nesting (the target's chain has no nesting adapter — so by construction of the histories);
+deeper nesting is answered with the explicit `outOfFuel`. -/
+def fireNested (H : Heap) (t : Nat) (firstOnly : Bool) (id : Nat) : Heap × Option Str × Option Err :=
+  -- result: the url of the nested request if it was handed to the opener, and the exception if one came out
+  if firstOnly && H.fired.contains id then (H, none, none)
+  else
+    let H1 := if firstOnly then { H with fired := id :: H.fired } else H
+    match connView H1 t with
+    | some (_, _, tas) =>
+      if hasNested tas then (H1, none, some .outOfFuel)
+      else
+        match requestFlat H1 t nestedArgs with
+        | (H2, .ok s) =>
+          match s.resp with
+          | .ok _ => (H2, some s.url, none)
+          | .error e => (H2, some s.url, some e)
+        | (H2, .error e) => (H2, none, some e)
+    | none => (H1, none, some .keyError)
+
+def optList {α} : Option α → List α
+  | some x => [x]
+  | none => []
+
+/-- the nesting adapters that fire in `process_req_args`, in chain order; the loop over the adapters
+stops where an earlier adapter refuses the request (`pre` = the adapters before the current one) -/
+def firePre (ra0 : RA) : Heap → (pre rest : List Adapter) → List Str → Heap × Except Err (List Str) × List Str
+  | H, _, [], acc => (H, .ok acc, acc)
+  | H, pre, a :: rest, acc =>
+    match a with
+    | .nested t firstOnly true id =>
+      match applyAll pre ra0 with
+      | .error _ => (H, .ok acc, acc)
+      | .ok _ =>
+        match fireNested H t firstOnly id with
+        | (H1, u, none) => firePre ra0 H1 (pre ++ [a]) rest (acc ++ optList u)
+        | (H1, u, some e) => (H1, .error e, acc ++ optList u)
+    | _ => firePre ra0 H (pre ++ [a]) rest acc
+
+/-- the nesting adapters that fire in `process_response`: the loop runs over the reversed chain and
+stops at the first processor that raises -/
+def firePost : Heap → (rev : List Adapter) → J → List Str → Heap × Except Err (List Str) × List Str
+  | H, [], _, acc => (H, .ok acc, acc)
+  | H, a :: rest, v, acc =>
+    match a with
+    | .nested t firstOnly false id =>
+      match fireNested H t firstOnly id with
+      | (H1, u, none) => firePost H1 rest v (acc ++ optList u)
+      | (H1, u, some e) => (H1, .error e, acc ++ optList u)
+    | _ =>
+      match procResp a v with
+      | .ok v' => firePost H rest v' acc
+      | .error _ => (H, .ok acc, acc)
+
+/-- a request through connection `c` whose chain may contain nesting adapters: their requests are
+complete requests on the same world, threaded through; the outer request itself is `requestFlat` —
+its adapter list is an argument of `do_request`, not state, so nothing the nested requests do can
+change which adapters process the outer request and response. -/
+def request (H : Heap) (c : Nat) (args : Args) : Heap × Except Err Sent :=
+  match connView H c, optDict H args.headers with
+  | some (_, _, as), some hd =>
+    if !hasNested as then
+      match requestFlat H c args with
+      | (H1, .ok s) => ({ H1 with lastSent := 1 }, .ok s)
+      | (H1, .error e) => ({ H1 with lastSent := 0 }, .error e)
+    else
+      match firePre { path := args.path, headers := copyHeaders hd } H [] as [] with
+      | (H1, .error e, pre) => ({ H1 with lastSent := pre.length }, .error e)
+      | (H1, .ok pre, _) =>
+        match requestFlat H1 c args with
+        | (H2, .error e) => ({ H2 with lastSent := pre.length }, .error e)
+        | (H2, .ok s) =>
+          match firePost H2 as.reverse (decodeResp args.raw args.resp) [] with
+          | (H3, .ok post, _) =>
+            ({ H3 with lastSent := pre.length + 1 + post.length }, .ok { s with nested := pre ++ post })
+          | (H3, .error e, post) =>
+            ({ H3 with lastSent := pre.length + 1 + post.length },
+             .ok { s with nested := pre ++ post, resp := .error e })
+  | _, _ =>
+    match requestFlat H c args with
+    | (H1, .ok s) => ({ H1 with lastSent := 1 }, .ok s)
+    | (H1, .error e) => ({ H1 with lastSent := 0 }, .error e)
 
 /-- `MCallerHttp.get_conn()` called from a method declared with `components` -/
 def getConn (H : Heap) (k : Nat) (comps : Option (List Str)) : Heap × Except Err Nat :=
